@@ -221,6 +221,7 @@ class POXCore (EventMixin):
     self.components = {'core':self}
 
     self._go_up_deferrals = set()
+    self._go_up_stage = 0 # 0: going up not done, 1: wait for deferrals, 2: up
 
     self._openflow_wanted = False
     self._handle_signals = handle_signals
@@ -412,6 +413,7 @@ class POXCore (EventMixin):
 
     self._add_signal_handlers()
 
+    self._go_up_stage = 1
     if not self._go_up_deferrals:
       self._goUp_stage2()
 
@@ -428,13 +430,14 @@ class POXCore (EventMixin):
       if o not in self._go_up_deferrals:
         raise RuntimeError("This deferral has already been executed")
       self._go_up_deferrals.remove(o)
-      if not self._go_up_deferrals:
+      if not self._go_up_deferrals and self._go_up_stage == 1:
         log.debug("Continuing to go up")
         self._goUp_stage2()
 
     return deferral
 
   def _goUp_stage2 (self):
+    self._go_up_stage = 2
 
     self.raiseEvent(UpEvent())
 
